@@ -121,10 +121,20 @@ def coq_dec(d):
     return "(mkdec (%s, %d%%N, %s))" % (B(neg), coef, Zn(exp))
 
 
+class TypeMismatch(Exception):
+    pass
+
+
 def dec_case(desc, probes):
     try:
         r = ranges.DecimalRange(desc)
         verdicts = [verdict(r, decimal.Decimal(p)) for p in probes]
+        # the value may be handed over as text or as int as well: the same number, the same verdict
+        as_text = [verdict(r, p) for p in probes]
+        as_int = [verdict(r, int(decimal.Decimal(p))) if decimal.Decimal(p) == int(decimal.Decimal(p)) and abs(decimal.Decimal(p)) < 10 ** 40 else v for p, v in zip(probes, verdicts)]
+        if as_text != verdicts or as_int != verdicts:
+            bad = [p for p, a, b, c in zip(probes, verdicts, as_text, as_int) if a != b or a != c]
+            raise TypeMismatch("values %r get different verdicts as Decimal / str / int" % (bad[:3],))
         if r.items is None:
             obs = {"kind": "empty", "verdicts": verdicts}
             coq = "(REmpty %s)" % L(verdicts, B)
@@ -135,6 +145,8 @@ def dec_case(desc, probes):
                                                   O(r.upper_limit, coq_dec), Zn(r.scale), Zn(r.precision), L(verdicts, B))
     except errors.InterfaceError:
         obs, coq = {"kind": "interface"}, "RInterface"
+    except TypeMismatch as e:
+        obs, coq = {"kind": "type-mismatch", "what": str(e)}, "RLeak"
     except Exception as e:  # noqa
         obs, coq = {"kind": "leak", "type": type(e).__name__}, "RLeak"
     pr = L([dec_tuple(decimal.Decimal(p)) for p in probes], lambda t: P(B(t[0]), "%d%%N" % t[1], Zn(t[2])))
@@ -165,6 +177,8 @@ def direct_oracle(inp, obs):
         D = decimal.Decimal
         den = [[None if a is None else D(a), None if b is None else D(b)] for a, b in den]
         probes = [D(p) for p in inp["probes"]]
+        if obs["kind"] == "type-mismatch":
+            return "%r: %s" % (inp["desc"], obs["what"])
         if obs["kind"] != "dec":
             return "well-formed decimal range %r was not accepted (%s)" % (inp["desc"], obs)
         items = [[None if a is None else D(a), None if b is None else D(b)] for a, b in obs["items"]]
@@ -384,6 +398,10 @@ def gen_inputs(tier, rnd):
                     d = decimal.Decimal(x)
                     eps = decimal.Decimal(1).scaleb(-scale - 1)
                     ps.update([str(d - eps), str(d), str(d + eps)])
+                    tiny = decimal.Decimal(1).scaleb(-31)      # beyond the 28 digits of the default arithmetic context
+                    with decimal.localcontext() as ctx:
+                        ctx.prec = 200
+                        ps.update([str(d - tiny), str(d + tiny)])
         ps.update(["0", "-100000", "100000", "1E+2", "0.5"])
         yield {"kind": "dec", "desc": desc, "probes": sorted(ps), "den": ditems}
     for m in MALFORMED + ["1.5...1.4", "1e2...2e2", "0x10...0x20", "'a'...'z'", "tab", "1.5, 1.5", "0.5...1.5, 1...2", ",1", "1,,2", "1_0.5", "1.5.3", "NaN", "Infinity", "1E+3...5"]:
